@@ -36,6 +36,10 @@ impl OverlayFS {
         if path.is_empty() {
             return Ok(self.layers[0].clone());
         }
+        // the whiteout bookkeeping is not part of the overlay's namespace
+        if path == "/.whiteout" || path.starts_with("/.whiteout/") {
+            return Err(VfsErrorKind::FileNotFound.into());
+        }
         if self.whiteout_path(path)?.exists()? {
             return Err(VfsErrorKind::FileNotFound.into());
         }
@@ -104,6 +108,9 @@ impl FileSystem for OverlayFS {
                     entries.remove(&filename[..filename.len() - 3]);
                 }
             }
+        }
+        if path.is_empty() {
+            entries.remove(".whiteout");
         }
         Ok(Box::new(entries.into_iter()))
     }
